@@ -37,6 +37,12 @@ type COp struct {
 	Req     *Req      `json:"req,omitempty"`
 	Planted []Planted `json:"planted,omitempty"`
 	Reent   []ReentOp `json:"reentrant,omitempty"` // req only: operator calls made by the request's own task at a seam
+	// Twice: the request goes through m.Wrap(between(m.Wrap(handler))) - the same middleware
+	// applied twice (on the router and on a route, say) with a layer in between, at which
+	// re-entrant calls with Seam "between" are made. Only generated in sequential plans and
+	// only with calls that change no state (a rejected Reconfigure, Config()): each
+	// application reads the state for itself.
+	Twice bool `json:"twice,omitempty"`
 	// Rep > 1: the operator call is made that many times in a row (volume plans only:
 	// no preemption, so the whole series is atomic and equals one call)
 	Rep int `json:"rep,omitempty"`
@@ -362,6 +368,42 @@ func (e c07) genVolume(r *R) any {
 	return p
 }
 
+// genTwice: a sequential plan in which requests go through the same middleware applied twice,
+// with calls that change no state made between the two applications.
+func (e c07) genTwice(r *R) any {
+	p := &C07Plan{}
+	n := r.Range(2, 3)
+	for i := 0; i < n; i++ {
+		p.Cfgs = append(p.Cfgs, genCfgX(r))
+	}
+	p.InitCfg = r.Intn(n)
+	p.InitDebug = r.P(0.5)
+	pool := discriminating(r, p.Cfgs)
+	client := func() CTask {
+		var t CTask
+		for _, q := range pool.pick(r, r.Range(1, 3)) {
+			q := q
+			op := COp{Kind: "req", Req: &q, Twice: true}
+			for k := r.Range(0, 2); k > 0; k-- {
+				ro := COp{Kind: "config"}
+				if r.P(0.7) {
+					ro = COp{Kind: "reconf_invalid", Cfg: r.Intn(n), Planted: genPlanted(r, r.Range(1, 2))}
+				}
+				op.Reent = append(op.Reent, ReentOp{Seam: "between", Op: ro})
+			}
+			t.Ops = append(t.Ops, op)
+		}
+		return t
+	}
+	var ops CTask
+	for k := r.Range(1, 2); k > 0; k-- {
+		ops.Ops = append(ops.Ops, genOperatorOp(r, n))
+	}
+	p.Tasks = []CTask{client(), ops, client()}
+	p.Order = []int{0, 1, 2}
+	return p
+}
+
 func smallCfg(c Cfg) bool {
 	cc := c.Config()
 	return smallConfig(&cc)
@@ -395,6 +437,9 @@ func (e c07) Gen(r *R, tier string) any {
 	}
 	if r.Run%64 == 2 {
 		return e.genVolume(r)
+	}
+	if r.Run%64 == 6 {
+		return e.genTwice(r)
 	}
 	p := &C07Plan{}
 	n := r.Range(2, 4)
@@ -646,7 +691,7 @@ func (s *sched) released() {
 	s.relGen++
 	s.inCrit[s.cur] = false
 	s.tasks[s.cur].relSeen = true
-	if t := s.tasks[s.cur]; t.opIdx < len(s.p.Tasks[t.id].Ops) && s.p.Tasks[t.id].Ops[t.opIdx].Kind == "req" && !t.seamSeen {
+	if t := s.tasks[s.cur]; t.opIdx < len(s.p.Tasks[t.id].Ops) && s.p.Tasks[t.id].Ops[t.opIdx].Kind == "req" && !t.seamSeen && !bg.busy {
 		s.c.hit("request_released_a_lock") // before its first seam: the request's own snapshot, not a re-entrant operator call
 	}
 	for _, t := range s.tasks {
@@ -848,6 +893,12 @@ func (s *sched) doReq(task int, op COp) {
 	q := *op.Req
 	betweenSteps("a request")
 	h := histOp{Task: task, Kind: "req", Input: q.String()}
+	if len(s.p.Preempts) > 0 {
+		op.Twice = false // (only in sequential plans: each application reads the state for itself)
+	}
+	if op.Twice {
+		h.Kind = "req2"
+	}
 	s.seq++
 	h.Call = s.seq
 	s.mix(task, "call:req")
@@ -888,6 +939,18 @@ func (s *sched) doReq(task int, op COp) {
 		// (Wrap called once, before the run started), even ones through a fresh Wrap
 		inner := seamHandler{s, task, op.Reent, &invoked, &wnote}
 		switch t := s.tasks[task]; {
+		case op.Twice:
+			s.c.hit("F17_same_middleware_applied_twice")
+			between := http.HandlerFunc(func(w2 http.ResponseWriter, r2 *http.Request) {
+				s.yield("seam:between", "seam")
+				for _, re := range op.Reent {
+					if re.Seam == "between" {
+						s.doOp(task, re.Op)
+					}
+				}
+				s.m.Wrap(inner).ServeHTTP(w2, r2)
+			})
+			s.m.Wrap(between).ServeHTTP(w, q.build())
 		case t.opIdx%3 == 1 && s.wrapped[task] != nil:
 			s.inner[task].h = inner
 			s.wrapped[task].ServeHTTP(w, q.build())
@@ -1147,6 +1210,16 @@ func applyMutator(m *cors.Middleware, enc string) string {
 
 func (r *refModel) step(state string, h histOp) (bool, string) {
 	switch h.Kind {
+	case "req2": // the same middleware applied twice
+		key := state + "\x1d2\x1d" + h.Input
+		want, ok := r.cache[key]
+		if !ok {
+			m := r.at(state)
+			srv := newServer(func(hh http.Handler) http.Handler { return m.Wrap(m.Wrap(hh)) })
+			want = srv.do(reqTable[h.Input]).String()
+			r.cache[key] = want
+		}
+		return want == h.Output, state
 	case "req":
 		key := state + "\x1d" + h.Input
 		want, ok := r.cache[key]
